@@ -477,43 +477,44 @@ def unresolved (b : Built) (load : Res) : Bool :=
 /-! ### exclusion predicates: typed positions of the whole document -/
 
 structure Pos where
+  ctx    : String     -- "Owner.tag" of the struct field this position is (an element of)
   ty     : Ty
   j      : JV
   inColl : Bool       -- element of a map or slice (not a struct field)
   deriving Inhabited
 
 /-- every typed position of a value (all fields of the struct table, not only the loader's walk) -/
-def positions : Nat → Ty → JV → Bool → List Pos
-  | 0, _, _, _ => []
-  | fuel + 1, ty, j, inColl =>
+def positions : Nat → String → Ty → JV → Bool → List Pos
+  | 0, _, _, _, _ => []
+  | fuel + 1, ctx, ty, j, inColl =>
   let positions := positions fuel
-  let here : Pos := { ty := ty, j := j, inColl := inColl }
+  let here : Pos := { ctx := ctx, ty := ty, j := j, inColl := inColl }
   match ty with
-  | .ptr t => if j.isNull then [here] else here :: (positions t j inColl).drop 1
-  | .mapOf e => here :: j.fields.flatMap (fun kv => positions e kv.2 true)
-  | .sliceOf e => here :: j.items.flatMap (fun x => positions e x true)
+  | .ptr t => if j.isNull then [here] else here :: (positions ctx t j inColl).drop 1
+  | .mapOf e => here :: j.fields.flatMap (fun kv => positions ctx e kv.2 true)
+  | .sliceOf e => here :: j.items.flatMap (fun x => positions ctx e x true)
   | .struct name =>
     if j.refText?.isSome && (wrapperValueTy? name).isSome then [here]
     else
       let own := (taggedFields name).flatMap (fun f => match j.get? f.tag with
-        | some v => positions f.ty v false
+        | some v => positions (name ++ "." ++ f.tag) f.ty v false
         | none => [])
       let viaValue := match wrapperValueTy? name with
-        | some vty => (positions vty j inColl).drop 1
+        | some vty => (positions ctx vty j inColl).drop 1
         | none => []
       let viaMap := match maplikeTy? name with
-        | some mty => (positions mty (.obj (extensionsOf name j)) inColl).drop 1
+        | some mty => (positions (name ++ ".m") mty (.obj (extensionsOf name j)) inColl).drop 1
         | none => []
-      let embedded := (Gen.c20Embedded.filter (·.1 == name)).flatMap (fun e => (positions (.struct e.2) j inColl).drop 1)
+      let embedded := (Gen.c20Embedded.filter (·.1 == name)).flatMap (fun e => (positions ctx (.struct e.2) j inColl).drop 1)
       let addProps := if name == "Schema" then
           match j.get? "additionalProperties" with
-          | some (.obj kvs) => positions (.ptr (.struct "SchemaRef")) (.obj kvs) false
+          | some (.obj kvs) => positions "Schema.additionalProperties" (.ptr (.struct "SchemaRef")) (.obj kvs) false
           | _ => []
         else []
       here :: (own ++ viaValue ++ viaMap ++ embedded ++ addProps)
   | _ => [here]
 
-def docPositions (j : JV) : List Pos := positions 96 (.ptr (.struct "T")) j false
+def docPositions (j : JV) : List Pos := positions 96 "" (.ptr (.struct "T")) j false
 
 def isWrapperPtr : Ty → Bool
   | .ptr (.struct n) => (kindOfStruct? n).isSome && n != "PathItem"
@@ -523,12 +524,22 @@ def isStructPtr : Ty → Bool
   | .ptr (.struct _) => true
   | _ => false
 
-/-- an explicit `null` where a reference wrapper is decoded -/
-def nullWrapper (ps : List Pos) : Bool := ps.any (fun p => p.j.isNull && isWrapperPtr p.ty)
+/-- an explicit `null` where a reference wrapper is decoded and no `isEmpty()` check of the loader
+    rejects it: example positions (`resolveExampleRef` has no such check), and the positions the loader
+    never walks — `components.links`, the headers of an `encoding` entry -/
+def nullWrapper (ps : List Pos) : Bool :=
+  ps.any (fun p => p.j.isNull &&
+    (p.ty == .ptr (.struct "ExampleRef") ||
+     (p.ty == .ptr (.struct "LinkRef") && p.ctx == "Components.links") ||
+     (p.ty == .ptr (.struct "HeaderRef") && p.ctx == "Encoding.headers")))
 
-/-- an explicit `null` where a pointer to another struct is decoded (server, tag, server variable,
-    media type, encoding, operation, path item, parameter list element, …) -/
-def nullMember (ps : List Pos) : Bool := ps.any (fun p => p.j.isNull && isStructPtr p.ty && !isWrapperPtr p.ty)
+/-- an explicit `null` element where a pointer to a struct is decoded and nothing checks it before it is
+    dereferenced: servers, tags, server variables, encoding entries, and parameter list elements (reached
+    unchecked when the path item also carries a `$ref`: the loader returns before walking it) -/
+def nullMember (ps : List Pos) : Bool :=
+  ps.any (fun p => p.j.isNull && p.inColl &&
+    (p.ty == .ptr (.struct "Server") || p.ty == .ptr (.struct "Tag") || p.ty == .ptr (.struct "ServerVariable") ||
+     p.ty == .ptr (.struct "Encoding") || (p.ty == .ptr (.struct "ParameterRef") && p.ctx == "PathItem.parameters")))
 
 /-- #41: a header of an `encoding` entry that is a reference (the loader never walks this position) -/
 def encodingHeader (ps : List Pos) : Bool :=
